@@ -9,7 +9,9 @@ AUTHORS = ["Ann Lee", "bob", "Zoë Ünal", "J. R. R. 3rd", "Li  Wei", "team-bot 
 WORDS = ["fix", "add", "update", "refactor: split", "feat(api): new", "docs", "bump 1.2.3", "a => b", "x {y => z}", "see [abc] note",
          "done: 100%", "merge", "tmp", "[WIP] start", "fix: #12 crash", "chore(deps): up", "éclair", "x"]
 ADVERSARIAL_SUBJECTS = ["revert [abcde12] again", "by Ann Lee 2020-01-01 confirmed", "released 2020-02-02 build", "cafe [deadbeef]", "double  space",
-                        "tab\tinside", "[12345] only", "fix: date 2020-03-04"]
+                        "tab\tinside", "[12345] only", "fix: date 2020-03-04",
+                        # subjects that BEGIN with digits, a date, a dash: nothing of them belongs to the date field before them
+                        "2020-01-02 release notes", "10 more fixtures", "- drop the old parser", "0", "1-2-3 go", "2 + 2 = 4", "-- 2020 --"]
 DIRS = ["", "src/", "src/main/", "docs/", "a b/", "domain/", "core/domain/x/", "ünï/"]
 # (names git prints C-quoted: non-ASCII bytes under its default core.quotepath, a double quote always)
 NAMES = ["f.txt", "g.go", "Main.java", "read me.md", "x.bin", "h.txt", "k.py", "说明.md", "café.txt", 'q"uote.txt']
@@ -373,6 +375,13 @@ def rand_commits(rng):
                         suf = "/".join(parts[k + 1:])
                         to = (pre + "/" if pre else "") + suf
                         arrow = (pre + "/" if pre else "") + "{%s => }/" % parts[k] + suf
+                if arrow is None and rng.random() < 0.15:
+                    # `git mv -f a b` onto a path that still exists: git prints the rename only; the moved file takes the path over
+                    # (its history is the moved file's, what was collected for the overwritten file is gone)
+                    live = [x for x in files if x != p and x not in touched]
+                    if live:
+                        to = rng.choice(live)
+                        del files[to]
                 if to in files or to in touched:
                     continue
                 chs.append({"Added": rng.choice([0, 1]), "Deleted": 0, "File": arrow or git_arrow(p, to), "Mode": ""})
